@@ -391,6 +391,7 @@ func engSig(e *Env) {
 		a.close(ctx)
 		rcv.close(ctx)
 	}
+	cidMismatchWitness(e, 23000+int(e.Seed%500)*4)
 	e.writeCasesSharded("cases_C12", "CorrC12", "sigcase", cases, 500)
 }
 
